@@ -18,9 +18,9 @@ enum { A_TRACK, A_TAGGED, A_ARENA };
 enum { K_INT, K_BSTR, K_TSTR, K_DARR, K_IARR, K_DMAP, K_IMAP, K_TAG, K_IBS, K_ITS, K_FLOAT, K_NKINDS };
 static const char* const kind_names[K_NKINDS] = {"int", "bytes", "text", "def-array", "indef-array", "def-map", "indef-map", "tag", "chunked-bytes", "chunked-text", "float"};
 enum { OP_NEW = 1, OP_INCREF, OP_DECREF, OP_IDECREF, OP_PUSH, OP_SET, OP_REPLACE, OP_GET, OP_MAPADD, OP_ADDCHUNK, OP_TAGSET, OP_TAGITEM,
-       OP_BUILDTAG, OP_COPY, OP_LOAD, OP_SERIALIZE, OP_MOVEPUSH, OP_DESCRIBE, OP_REHANDLE, OP_NOPS };
+       OP_BUILDTAG, OP_COPY, OP_LOAD, OP_SERIALIZE, OP_MOVEPUSH, OP_DESCRIBE, OP_REHANDLE, OP_DETACH, OP_NOPS };
 static const char* const op_names[OP_NOPS] = {"?", "new", "incref", "decref", "intermediate_decref", "push", "set", "replace", "get", "map_add", "add_chunk",
-  "tag_set_item", "tag_item", "build_tag", "copy", "load", "serialize", "push(move)", "describe", "set_handle(same block)"};
+  "tag_set_item", "tag_item", "build_tag", "copy", "load", "serialize", "push(move)", "describe", "set_handle(same block)", "detach_handle"};
 
 struct mnode { uint8_t alive, kind, cap, nmem; int8_t mem[MAXMEM]; };
 struct mstate { struct mnode n[MAXN]; int nn; int8_t slot[NSLOT]; uint8_t hold[NSLOT]; };
@@ -239,6 +239,7 @@ static int m_apply(struct mstate* m, struct op o, bool allow_oob) {
     case OP_SERIALIZE: case OP_DESCRIBE:
       if (a < 0 || !m_complete(m, a)) return -1;
       return 1;
+    case OP_DETACH: /* the client takes the string's block back (set_handle(NULL, 0)) and releases it itself: item graph unchanged */
     case OP_REHANDLE: /* re-attach the block the string already owns (in-place edit / truncation): ownership unchanged */
       if (a < 0 || (m->n[a].kind != K_BSTR && m->n[a].kind != K_TSTR)) return -1;
       return 1;
@@ -309,6 +310,7 @@ static bool bind_tree(const struct mstate* m, int node, cbor_item_t* it) {
  * afterwards, which is legal because either the container now keeps the item alive or the refused call left it exactly
  * as it was. The net effect equals the plain call, so the model is unchanged; what differs is the count the library
  * sees, in particular 0 on a refusal path. */
+static uint64_t g_detaches;
 static bool g_lend;
 static uint64_t g_lent_calls, g_lent_refused;
 #define LEND(x) do { if (g_lend) cbor_move(x); } while (0)
@@ -425,6 +427,18 @@ static int r_apply(const struct mstate* pre, const struct mstate* post, struct o
        * allocations for stdio, so cbor_describe can run inside the bypass detector like everything else */
       LIB(cbor_describe(rslot[o.a], devnull)); LIBEND();
       return 1;
+    case OP_DETACH: {
+      /* set_handle does not release the block an item already owns; handing it NULL leaves the old block with the client,
+       * who releases it through the installed allocator — the item must forget it */
+      cbor_item_t* it = rslot[o.a];
+      unsigned char* h = cbor_isa_bytestring(it) ? cbor_bytestring_handle(it) : cbor_string_handle(it);
+      if (cbor_isa_bytestring(it)) { LIB(cbor_bytestring_set_handle(it, NULL, 0)); LIBEND(); } else { LIB(cbor_string_set_handle(it, NULL, 0)); LIBEND(); }
+      if (h) _cbor_free(h);
+      if ((cbor_isa_bytestring(it) ? cbor_bytestring_handle(it) : cbor_string_handle(it)) != NULL || (cbor_isa_bytestring(it) ? cbor_bytestring_length(it) : cbor_string_length(it)) != 0)
+        vh_violation("detached-string-keeps-its-block", "after set_handle(NULL, 0) the string still reports a data pointer or a non-zero length");
+      g_detaches++;
+      return 1;
+    }
     case OP_REHANDLE: {
       cbor_item_t* it = rslot[o.a];
       if (cbor_isa_bytestring(it)) {
@@ -453,7 +467,7 @@ static void render_history(const struct op* ops, int n, struct vh_buf* out) {
     o.code &= 0x3f;
     switch (o.code) {
       case OP_NEW: vb_printf(out, "s%d=new(%s%s%.0d)", o.a, kind_names[o.b < K_NKINDS ? o.b : 0], (o.b == K_DARR || o.b == K_DMAP) ? " cap " : "", (o.b == K_DARR || o.b == K_DMAP) ? o.c : 0); if ((o.b == K_DARR || o.b == K_DMAP) && o.c == 0) vb_printf(out, "0"); break;
-      case OP_INCREF: case OP_DECREF: case OP_IDECREF: case OP_SERIALIZE: case OP_DESCRIBE: case OP_REHANDLE: vb_printf(out, "%s(s%d)", op_names[o.code], o.a); break;
+      case OP_INCREF: case OP_DECREF: case OP_IDECREF: case OP_SERIALIZE: case OP_DESCRIBE: case OP_REHANDLE: case OP_DETACH: vb_printf(out, "%s(s%d)", op_names[o.code], o.a); break;
       case OP_PUSH: case OP_MOVEPUSH: case OP_ADDCHUNK: vb_printf(out, "%s(s%d, s%d)", op_names[o.code], o.a, o.b); break;
       case OP_SET: case OP_REPLACE: if (o.b >= 200) vb_printf(out, "%s(s%d, %zu, s%d)", op_names[o.code], o.a, huge_index(o.b), o.c); else vb_printf(out, "%s(s%d, %d, s%d)", op_names[o.code], o.a, o.b, o.c); break;
       case OP_GET: if (o.b >= 200) vb_printf(out, "s%d=get(s%d, %zu)", o.c, o.a, huge_index(o.b)); else vb_printf(out, "s%d=get(s%d, %d)", o.c, o.a, o.b); break;
@@ -705,7 +719,7 @@ static int gen_ops(const struct mstate* m, struct op* out, int maxout, int nslot
     ADD(OP_DECREF, s, 0, 0);
     if (m->hold[s] > 1 || m_indeg(m, node) > 0) ADD(OP_IDECREF, s, 0, 0);
     ADD(OP_SERIALIZE, s, 0, 0);
-    if (kind == K_BSTR || kind == K_TSTR) { ADD(OP_REHANDLE, s, 1, 0); ADD(OP_REHANDLE, s, 3, 0); }
+    if (kind == K_BSTR || kind == K_TSTR) { ADD(OP_REHANDLE, s, 1, 0); ADD(OP_REHANDLE, s, 3, 0); ADD(OP_DETACH, s, 0, 0); }
     if (lowest_empty >= 0) { ADD(OP_COPY, s, lowest_empty, 0); ADD(OP_BUILDTAG, s, lowest_empty, 0); }
     for (int x = 0; x < nslots; x++) {
       if (m->slot[x] < 0) continue;
@@ -768,7 +782,7 @@ static void random_history(uint64_t u, int maxlen, bool allow_oob) {
     else if (pick < 82) o.code = OP_COPY;
     else if (pick < 84) { o.code = OP_LOAD; o.b = (uint8_t)vh_below(&r, NLOADS); }
     else if (pick < 87) o.code = OP_SERIALIZE;
-    else if (pick < 88) { o.code = vh_below(&r, 3) ? OP_REHANDLE : OP_DESCRIBE; o.b = (uint8_t)vh_below(&r, 8); }
+    else if (pick < 88) { int w = (int)vh_below(&r, 4); o.code = w == 0 ? OP_DESCRIBE : w == 1 ? OP_DETACH : OP_REHANDLE; o.b = (uint8_t)vh_below(&r, 8); }
     else if (pick < 92) o.code = OP_INCREF;
     else if (pick < 98) o.code = OP_DECREF;
     else o.code = OP_IDECREF;
@@ -815,6 +829,7 @@ static void c12_dfs(struct mstate* m, struct op* prefix, int base, int depth, in
     /* a chunk edited and truncated in place while it sits in the chunked string, then the whole serialized */
     alpha[na++] = (struct op){OP_REHANDLE, 1, 2, 0};
     alpha[na++] = (struct op){OP_REHANDLE, 2, 3, 0};
+    alpha[na++] = (struct op){OP_DETACH, 1, 0, 0};
     alpha[na++] = (struct op){OP_SERIALIZE, 0, 0, 0};
   }
   /* refused variants of the inserting ops (the allocator refuses everything during the call) */
@@ -1208,6 +1223,7 @@ static void hist_run(void) {
     vh_count_dyn("steps_that_released_memory", g_free_steps);
     vh_count_dyn("ops_executed", g_ops_executed);
     vh_count_dyn("ops_expected_to_be_refused", g_refused_ops);
+    vh_count_dyn("string_blocks_detached_and_released_by_the_client", g_detaches);
     vh_count_dyn("calls_with_arguments_lent_through_cbor_move", g_lent_calls);
     vh_count_dyn("calls_with_lent_arguments_that_were_refused", g_lent_refused);
     vh_count_dyn("ops_in_which_an_allocation_refusal_fired", g_refusals_hit);
@@ -1257,6 +1273,7 @@ static void hist_run(void) {
     } else vh_die("driver hist: unknown C12 stage '%s'", st);
     vh_count_dyn("ops_executed", g_ops_executed);
     vh_count_dyn("ops_expected_to_be_refused", g_refused_ops);
+    vh_count_dyn("string_blocks_detached_and_released_by_the_client", g_detaches);
     vh_count_dyn("calls_with_arguments_lent_through_cbor_move", g_lent_calls);
     vh_count_dyn("calls_with_lent_arguments_that_were_refused", g_lent_refused);
     vh_count_dyn("ops_in_which_an_allocation_refusal_fired", g_refusals_hit);
